@@ -263,16 +263,23 @@ def snapUniform (mant : Nat) (words : List Nat) : Option α :=
   | none => none
   | some e => some (RangeOps.ldexp (2 ^ 52 + mant % 2 ^ 52) e)
 
+/-- the value just before the rounding step, and the rounding grid `Λ`:
+`(value_clamped + laplace, lambda_)` of `Snapping.randomise` (sensitivity > 0) -/
+def snapPre (eps sens lo hi v : α) (signBit : Bool) (u : α) : α × α :=
+  let b := snapBound lo hi sens
+  let vc := snapTrunc b (snapScaleOffset v sens b lo)
+  let scale := 1 / snapEffEps eps b
+  let lam := RangeOps.nextPow2 scale
+  let lap := scale * (if signBit then -(Transc.log u) else Transc.log u)
+  (vc + lap, lam)
+
 /-- `Snapping.randomise` given the sign bit and the uniform -/
 def snapping (eps sens lo hi v : α) (signBit : Bool) (u : α) : α :=
   if feq sens 0 then truncate lo hi v
   else
     let b := snapBound lo hi sens
-    let vc := snapTrunc b (snapScaleOffset v sens b lo)
-    let scale := 1 / snapEffEps eps b
-    let lam := RangeOps.nextPow2 scale
-    let lap := scale * (if signBit then -(Transc.log u) else Transc.log u)
-    let vr := snapRound (HasInf.isPosInf eps) (vc + lap) lam
+    let p := snapPre eps sens lo hi v signBit u
+    let vr := snapRound (HasInf.isPosInf eps) p.1 p.2
     -- scaling back can round just past the bounds: truncated to [lower, upper] once more
     truncate lo hi (snapReverse (snapTrunc b vr) b sens lo)
 
@@ -309,11 +316,12 @@ end
 /-- `PermuteAndFlip.randomise` as a function of the decisions it takes: at each round a position in the list of
 remaining candidates (`int(rng.random() * len(candidate_ids))`) and the outcome of the Bernoulli flip. -/
 def pfLoop : List Nat → List (Nat × Bool) → Option Nat
-  | [], _ => none                       -- RuntimeError("No value to return")
-  | _ :: _, [] => none                  -- script exhausted
-  | id :: ids, (pos, flip) :: rest =>
-    let idx := (id :: ids).getD pos id
-    if flip then some idx else pfLoop ((id :: ids).erase idx) rest
-termination_by ids ds => ds.length
+  | _, [] => none                       -- script exhausted
+  | ids, (pos, flip) :: rest =>
+    match ids with
+    | [] => none                        -- RuntimeError("No value to return")
+    | id :: tl =>
+      let idx := (id :: tl).getD pos id
+      if flip then some idx else pfLoop ((id :: tl).erase idx) rest
 
 end DPL
